@@ -52,6 +52,7 @@ const (
 	ErrMsgRequestTimeout          Error = "-ERR proxy request timeout\r\n"
 	ErrAuthInvalidPassword        Error = "-ERR invalid password\r\n"
 	ErrAuthNeedNtPassword         Error = "-ERR Client sent AUTH, but no password is set\r\n"
+	ErrBackendClosed              Error = "-ERR redis connection closed\r\n"
 )
 
 type Error string
